@@ -613,3 +613,31 @@ PROPS["C06"]["expect_theorems"] = list(PROPS["C06"]["expect_theorems"]) + ["Narw
 # notification returns when and with what, which connections close; the same schedule in the model's labels)
 PROPS["C05"]["suites"]["micro"] = {"kind": "lines", "nvh_suite": "micro", "driver_suite": "micro", "op_prefixes": ["mi "],
                                    "cases": {"quick": 1500, "thorough": 60000}, "oracle_tags": ["C05"]}
+
+
+# C07: who holds a username, for every interleaving of registrations and connection ends (atomic steps = one map critical section each,
+# read from the source); C12: replies replaced by RESPONSE_TOO_LARGE keep the verdict
+PROPS["C07"]["theorems"] = list(PROPS["C07"]["theorems"]) + ["Narwhal.Theorems.C07Names"]
+PROPS["C07"]["audit_files"] = list(PROPS["C07"]["audit_files"]) + ["Narwhal/Model/Names.lean"]
+PROPS["C07"]["expect_theorems"] = list(PROPS["C07"]["expect_theorems"]) + [
+    "Narwhal.Names.C07_unique_holder", "Narwhal.Names.C07_identify_iff_free", "Narwhal.Names.C07_holder_keeps_name",
+    "Narwhal.Names.C07_name_reusable", "Narwhal.Names.names_table_ok"]
+PROPS["C07"]["level_text"] += (" Every interleaving: registration and the end of a connection are each one critical section on the connection map "
+                               "(read from c2s/router.rs on every run), and for every sequence of them a name has at most one holder, an IDENTIFY is "
+                               "acknowledged exactly when the name is free, nothing but its own end takes the name from its holder, and the name is free "
+                               "again once the holder has ended (Model/Names.lean). Name reuse during a slow clean-up is probed on the real server by the lat suite.")
+PROPS["C12"]["expect_theorems"] = list(PROPS["C12"]["expect_theorems"]) + ["Narwhal.Server.C12_substitution_keeps_answer", "Narwhal.Server.C12_substitution_no_foreign_id"]
+PROPS["C12"]["assumptions"] = ["requests are handled to quiescence one at a time (sequential model); pipelining and request timeouts are decided under C13 and by the lat suite",
+                               "which replies exceed max_message_size is a parameter (`fits`) of the substitution theorems; the real sizes are exercised by the toolarge suite"]
+
+
+# the per-connection in-flight gate also belongs to C12 (a client within the advertised limit is always answered) and C13 (a finished
+# request does not keep its slot): the limits suite's slot-leak oracle serves them too
+for _p in ("C12", "C13"):
+    PROPS[_p]["suites"]["limits"] = dict(PROPS["C14"]["suites"]["limits"], oracle_tags=[_p])
+
+
+# C14 (limits do not drift): churn-style traffic under tight limits (max_channels 1-2, max_clients 1-3, max_subscriptions 1-2) where half the
+# JOINs of users without memberships fail in the modulator and are rolled back
+PROPS["C14"]["suites"]["drift"] = {"kind": "srv", "args": {"mode": "drift"}, "cases": {"quick": 250, "thorough": 6000},
+                                   "projection": PROPS["C14"]["suites"]["srv"]["projection"], "oracle_tags": ["C14"], "depends": STATE_DEPENDS}
